@@ -18,12 +18,12 @@ func init() {
 		"streamHTTP.decodeRequestArgs", "streamHTTP.readMsg", "streamHTTP.writeMsg", "streamHTTP.getCodec",
 		"streamWS.RecvMsg", "streamWS.SendMsg",
 		"webWriter.seeHeaders", "webWriter.writeTrailer", "webWriter.flushWithTrailer",
-		"AsHTTPBodyReader", "AsHTTPBodyWriter", "negotiateContentType",
+		"AsHTTPBodyReader", "AsHTTPBodyWriter", "negotiateContentType", "negotiateContentEncoding",
 		"newIncomingContext", "setOutgoingHeader", "setOutgoingMetadata", "setOutgoingTrailer",
 		"decodeBinHeader", "encodeBinHeader", "decodeTimeout", "timeoutUnit", "encodeGrpcMessage", "growcap",
 		// matcher and parameters
 		"method.parseQueryParams", "params.set", "parseParam", "path.search", "path.match", "path.findVariable",
-		"variable.index", "variables.Less", "tokens.String", "tokens.index", "tokens.indexAny",
+		"variable.index", "variables.Less", "tokens.String", "tokens.index", "tokens.indexAny", "isPath", "lexPath",
 		"state.match", "state.pickMethodHandler", "ruleSelector.getRules",
 		// registration and snapshots
 		"Mux.storeState", "Mux.loadState", "path.addPath", "path.addRule", "path.addVariable", "path.delRule", "path.alive", "path.clone",
